@@ -22,7 +22,8 @@ def loop_case(rng):
     keyword arguments and array indices"""
     ty = rng.choice(["int", "int", "int", "float", "bool", "str"])
     x = rng.choice(["i", "j", "k", "idx", "m"])
-    pre = ["int n = %d" % rng.randint(0, 3), "int array A =\n    1, 2, 3, 4, 5, 6, 7, 8, 9, 10, 11, 12", "Vac | n"]
+    nval = rng.randint(0, 3)
+    pre = ["int n = %d" % nval, 'str sv = "xy"', "bool bv = True", "float fv = 1.25", "int array A =\n    1, 2, 3, 4, 5, 6, 7, 8, 9, 10, 11, 12", "Vac | n"]
     post = ["Rgate(n + 1) | n", "MeasureX | 0"]
     if ty in ("int", "float") and rng.random() < 0.6:
         a, b = rng.randint(0, 4), rng.randint(0, 7)
@@ -55,6 +56,11 @@ def loop_case(rng):
         else:
             vals = [rng.choice(["a", "b", "xy", ""]) for _ in range(n)]
             items = ['"%s"' % v for v in vals]
+        # listed values given by variables declared before the loop (of every type)
+        var = {"int": ("n", nval), "float": ("fv", 1.25), "bool": ("bv", True), "str": ("sv", "xy")}[ty]
+        for k in range(n):
+            if rng.random() < 0.15:
+                items[k], vals[k] = var
         hdr = rng.choice(["[%s]", "(%s)", "%s"]) % ", ".join(items)
         if hdr.startswith("((") or (hdr.startswith("(") and items[0].startswith("(")):
             hdr = "[%s]" % ", ".join(items)
